@@ -178,6 +178,14 @@ fn run(seq: &[Step], r: &mut Report) {
                 if on_disk.as_ref().map(|l| l.metadata.clone()) != want_meta { fail("keep", "keep leaves the metadata (or the migrated metadata) in place", format!("{want_meta:?}"), format!("{on_disk:?}")); }
             }
         }
+        // exec.d programs are copies: rewriting a program's SOURCE file in place afterwards does not reach into the layer
+        if (outcome == "create" || outcome == "update") && st.payload != 2 {
+            let before_execd = part(&tree(&x), "exec.d");
+            for (f, orig) in [("prog-a", b"A"), ("prog-b", b"B")] { let mut h = fs::OpenOptions::new().write(true).open(src.join(f)).unwrap(); std::io::Write::write_all(&mut h, b"Z").unwrap(); drop(h); let _ = orig; }
+            let after_execd = part(&tree(&x), "exec.d");
+            fs::write(src.join("prog-a"), b"A").unwrap(); fs::write(src.join("prog-b"), b"B").unwrap();
+            if after_execd != before_execd { fail("exec_d", "the layer's exec.d programs are copies of their sources: rewriting a source file in place afterwards leaves the layer as it was", format!("{before_execd:?}"), format!("{after_execd:?}")); }
+        }
         // ---- returned data == disk
         let reread_env_tree = { let t2 = tempfile::tempdir().unwrap(); data.env.write_to_layer_dir(t2.path()).unwrap(); let t3 = tempfile::tempdir().unwrap(); LayerEnv::read_from_layer_dir(&x).unwrap().write_to_layer_dir(t3.path()).unwrap(); (tree(t2.path()), tree(t3.path())) };
         if reread_env_tree.0 != reread_env_tree.1 || data.path != x || on_disk.as_ref().map(|l| (&l.metadata, l.types)) != Some((&data.content_metadata.metadata, data.content_metadata.types)) {
